@@ -113,6 +113,12 @@ def checkRpfc (strsHex qHex pHex t mc el ml bk bs rules hdr st loc abs pre ext :
     | _, _ => some (0, 0)
   if modPre != implPre.map some then "V model-locatePrefix-differs-from-code" else
   if modPre != specPre then "V model-locatePrefix-differs-from-spec" else
+  -- the string iterator on the exported structure: table scan and the range scans of `extractPrefix`
+  if S != [] && extractTable d != some S then "V model-extractTable-differs-from-spec" else
+  let specXp := P.map fun p =>
+    let l := (Spec.prefixIds S p).filterMap (Spec.extract S)
+    some (if l.isEmpty then none else some l)
+  if P.map (extractPrefix d) != specXp then "V model-extractPrefix-differs-from-spec" else
   "V ok"
 
 def runRpfcStream (c : Case) (emit : Nat → String → IO Unit) : IO Unit := do
